@@ -61,7 +61,14 @@ func (m ViewMap) GetWithInternalId(ctx context.Context, identifier string, flags
 	if view, ok := m.Load(identifier); ok {
 		ret := view.Copy()
 
-		ret.Header = NewHeaderWithId(ret.Header[0].View, []string{}).Merge(ret.Header)
+		// A table may have no column at all (an empty file, a table whose columns were all dropped).
+		viewName := ""
+		if 0 < len(ret.Header) {
+			viewName = ret.Header[0].View
+		} else if ret.FileInfo != nil {
+			viewName = FormatTableName(ret.FileInfo.Path)
+		}
+		ret.Header = NewHeaderWithId(viewName, []string{}).Merge(ret.Header)
 
 		if err := NewGoroutineTaskManager(ret.RecordLen(), -1, flags.CPU).Run(ctx, func(index int) error {
 			record := make(Record, len(ret.RecordSet[index])+1)
